@@ -62,8 +62,8 @@ def obs(fn, *a):
     if isinstance(r, tuple) and len(r) == 2 and isinstance(r[1], bool) and fn.startswith("d"):
         return json.dumps(["v", repr(_norm(r[0])), r[1], list(_hooks)])
     return json.dumps(["v", repr(_norm(r)), None, list(_hooks)])
-def obs_risky(fn, *a):
-    # a call that may kill the process runs in a forked copy of the driver; death by signal is the observation
+def obs_fork(fn, *a):
+    # the call runs in a forked copy of the driver; death by signal is the observation
     import os
     sys.stdout.flush()
     r, w = os.pipe()
